@@ -347,7 +347,10 @@ func cmdCheck(args []string) {
 	}
 	var known []*KnownFinding
 	loadJSON(filepath.Join(verifRoot, "claims", "known_findings.json"), &known)
+	warm := make(chan struct{})
+	go func() { warmSolvers(); close(warm) }()
 	eng, err := loadEngine(*repo, []string{"./..."})
+	<-warm
 	if err != nil {
 		// the tree does not load: nothing can be decided; this is a broken run, not a verdict
 		fmt.Fprintln(os.Stderr, "cannot load repository:", err)
